@@ -84,3 +84,49 @@ func init() {
 		},
 	})
 }
+
+// c15RegisterFirst: in (*Pipestance).Lock (martian/core/pipestance.go) is
+// util.RegisterSignalHandler(self) called BEFORE the statement that returns
+// PipestanceLockedError when the lock file exists?  (Then an attacher that was
+// refused stays registered and its HandleSignal removes the holder's lock.)
+func init() {
+	addFact(fact{
+		name:   "c15RegisterFirst",
+		leanTy: "Bool",
+		deflt:  "false",
+		extract: func(repo string) (string, interface{}, error) {
+			_, f, err := parseFile(repo, "martian/core/pipestance.go")
+			if err != nil {
+				return "", nil, err
+			}
+			fd := findMethod(f, "Pipestance", "Lock")
+			if fd == nil {
+				return "", nil, fmt.Errorf("(*Pipestance).Lock not found")
+			}
+			reg, chk := -1, -1
+			for i, st := range fd.Body.List {
+				ast.Inspect(st, func(n ast.Node) bool {
+					switch n := n.(type) {
+					case *ast.CallExpr:
+						if sel, ok := n.Fun.(*ast.SelectorExpr); ok && sel.Sel.Name == "RegisterSignalHandler" && reg < 0 {
+							reg = i
+						}
+					case *ast.CompositeLit:
+						if id, ok := n.Type.(*ast.Ident); ok && id.Name == "PipestanceLockedError" && chk < 0 {
+							chk = i
+						}
+					}
+					return true
+				})
+			}
+			if reg < 0 || chk < 0 {
+				return "", nil, fmt.Errorf("RegisterSignalHandler call (%d) or PipestanceLockedError return (%d) not found in Lock", reg, chk)
+			}
+			js := map[string]int{"register_statement": reg, "locked_error_statement": chk}
+			if reg <= chk {
+				return "true", js, nil
+			}
+			return "false", js, nil
+		},
+	})
+}
